@@ -1180,6 +1180,7 @@ func runLoaderProp(prop string, judge string) {
 			}, meta, 30, 8)
 		}
 		if prop == "C02" && replay == "" {
+			lDirectedExtras(meta)
 			lCacheTransparency(cases, func(i int) *LObs {
 				o := meta.Cases[i].(map[string]any)["go"].(LObs)
 				return &o
@@ -1443,6 +1444,27 @@ func c20Directed() []LCase {
 		"#/components/responses/R/headers/H", "#/components/requestBodies/B/content/application~1json/schema", "#/components/headers/H/schema", "#/servers/0", "#/tags/0", "#/externalDocs",
 		"#/security/0", "#/components/securitySchemes/S", "#/components/links/L", "#/components/callbacks/C", "#/components/examples/E"} {
 		mk(sparse(fr))
+	}
+	// chains of diamonds: every level reaches the next one through two edges - validating, serialising and
+	// internalising must stay linear in the number of schemas (65 here), not in the number of paths (2^64)
+	for _, edges := range [][2]string{{"not", "additionalProperties"}, {"allOf", "items"}, {"oneOf", "properties"}, {"anyOf", "not"}, {"items", "additionalProperties"}} {
+		var b strings.Builder
+		b.WriteString(`{"openapi":"3.0.3","info":{"title":"t","version":"1"},"paths":{},"components":{"schemas":{`)
+		edge := func(kind string, next int) string {
+			ref := fmt.Sprintf(`{"$ref":"#/components/schemas/S%d"}`, next)
+			switch kind {
+			case "allOf", "oneOf", "anyOf":
+				return fmt.Sprintf(`%q:[%s]`, kind, ref)
+			case "properties":
+				return fmt.Sprintf(`"properties":{"x":%s}`, ref)
+			}
+			return fmt.Sprintf(`%q:%s`, kind, ref)
+		}
+		for i := 0; i < 64; i++ {
+			fmt.Fprintf(&b, `"S%d":{%s,%s},`, i, edge(edges[0], i+1), edge(edges[1], i+1))
+		}
+		b.WriteString(`"S64":{"type":"string"}}}}`)
+		mk(b.String())
 	}
 	// every node of a complete document replaced by null (one at a time)
 	var full any
